@@ -30,8 +30,8 @@ RULE = ('Hypothesis-generated configurations (layer tree of 2-6 leaves with name
         'have own sources; per leaf 1-2 sources: direct WMS (transparent or opaque-declared) or png / jpeg cache on '
         'GLOBAL_MERCATOR / GLOBAL_WEBMERCATOR / GLOBAL_GEODETIC / a custom UTM32 grid, stored or disable_storage, '
         'meta 1x1 / 2x2; optional tile_sources) x 6 requests each: WMS 1.1.1 / 1.3.0 GetMap (EPSG:3857 / 4326 / 25832, '
-        '40-256 px, non-square pixels, png / jpeg, transparent or bgcolor, 1-3 layer names incl. groups; a third of the '
-        'configurations has services.wms.bbox_srs with plain codes and explicit {srs, bbox} extents, and two thirds of their '
+        '40-256 px, non-square pixels, png / jpeg, transparent or bgcolor, 1-3 layer names incl. groups; half of the '
+        'configurations has services.wms.on_source_errors raise, the others notify or absent; a third has services.wms.bbox_srs with plain codes and explicit {srs, bbox} extents, and two thirds of their '
         'GetMap requests in such an SRS reach 8-93 % beyond the extent over an edge or corner), WMS '
         'GetFeatureInfo, TMS / tiles / KML / WMTS-REST / WMTS-KVP tiles and WMTS GetFeatureInfo, each with its own '
         'authorize callback result: full / none / unauthenticated / no callback / partial with per-name '
@@ -275,6 +275,9 @@ class Model(object):
         }
         if self.bbox_srs:
             conf['services']['wms']['bbox_srs'] = self.bbox_srs
+        if self.conf.get('on_source_errors'):
+            # 'raise' renders through LayerRenderer._render_raise_exceptions, 'notify' (= default) through its twin
+            conf['services']['wms']['on_source_errors'] = self.conf['on_source_errors']
         if caches:
             conf['caches'] = caches
         if grids:
@@ -708,7 +711,8 @@ def confs(draw):
         tree.append(group(0) if draw(st.booleans()) else leaf())
     if counter['leaf'] < 2:
         tree.append(leaf())
-    conf = {'tree': tree, 'sources': sources, 'coff': draw(st.integers(0, 26))}
+    conf = {'tree': tree, 'sources': sources, 'coff': draw(st.integers(0, 26)),
+            'on_source_errors': draw(st.sampled_from([None, 'notify', 'raise', 'raise']))}
     if draw(st.sampled_from([False, False, True])):
         entries = []
         for srs in WMS_SRS:
@@ -1082,7 +1086,8 @@ class Harness(object):
             else:
                 req['_bg'] = PALETTE[m.bg_idx]
                 url = wms_url(req, frame, 'GetMap')
-            classes += ['srs:' + frame.srs, 'wms:' + req['version']]
+            classes += ['srs:' + frame.srs, 'wms:' + req['version'],
+                        'on_source_errors:' + str(m.conf.get('on_source_errors') or 'absent')]
         else:
             node = m.nodes[req['layer']]
             src = m.tile_source(node)
